@@ -689,13 +689,17 @@ def k9(led, rid, ctx):
     produces the n-th step of the file.  A step that is skipped (because it 'repeats' the previous
     one) changes the sequence the reader gets back and hands out an id that later steps may no
     longer be allowed to use."""
+    from ..inline import view
     p = ctx.drcp
     n = 0
-    for f in p.fns.values():
-        if "writer/mod.rs" not in f.file or f.kind == "Closure" or "ProofWriter" not in (f.self_ty or ""):
+    for f0 in p.fns.values():
+        if "writer/mod.rs" not in f0.file or f0.kind == "Closure" or "ProofWriter" not in (f0.self_ty or ""):
             continue
-        if not (f.name.startswith("log_") or f.name == "conclude"):
+        if not (f0.name.startswith("log_") or f0.name in ("unsat", "optimal")) or f0.vis != "pub":
             continue
+        # private helpers of the writer (a shared `conclude`, a trailer writer) are spliced in
+        f = view(p, f0, want=lambda g: g.file == f0.file and g.kind != "Closure" and g.vis != "pub"
+                 and "ProofWriter" in (g.self_ty or "") and g.name != "next_step_id")
         n += 1
         ws = [c for c in f.calls if c.name in ("write", "write_all", "write_fmt", "write_string")]
         ok = any(all(f.cfg.dominates(c.bb, r) for r in f.cfg.returns) for c in ws)
@@ -708,7 +712,7 @@ def k9(led, rid, ctx):
             led.check(ok2, rid, "%s:fresh-id-on-every-path" % f.name, f.span, "next_step_id dominates every return",
                       "ProofWriter::%s can return an id it did not just allocate: two logged steps share one id"
                       % f.name)
-    led.floor(rid, "step-logging methods of ProofWriter", n, 4)
+    led.floor(rid, "step-logging methods of ProofWriter", n, 5)
 
 
 def k7(led, rid, ctx):
